@@ -28,6 +28,7 @@ THEOREMS = [
     "Typedpy.C17.step_input_intact", "Typedpy.C17.convert_result_disjoint", "Typedpy.C17.heap_examples",
     "Typedpy.C17.versioned_deserialize_whole_path", "Typedpy.C17.versioned_deserialize_is_plain",
     "Typedpy.C17.whole_path_example", "Typedpy.C17.convert_fn_error_propagates", "Typedpy.C17.convert_fn_result",
+    "Typedpy.C17.versioned_deserialize_trusted_whole_path",
 ]
 RULE = ("histories of 0..5 (thorough 0..8) mappings over top-level keys a..e (+ rarely `version`) with Constant, Deleted, "
         "moves (plain and dotted paths, degenerate paths), nested `._mapper` entries (depth <= 2) over sub-documents and "
@@ -40,8 +41,9 @@ RULE = ("histories of 0..5 (thorough 0..8) mappings over top-level keys a..e (+ 
         "points 0..n (+ occasionally n+2); per case one Versioned class (fields Anything / Integer / String / Sub / "
         "Array[Sub]; in half of the cases ~45% of the keys a..e are NOT fields, so histories move / delete / add non-field "
         "keys; nested class with or without the key `a` declared), `_additional_properties` unset / True / False, "
-        "keep_undefined default / True / False, with and without `_versions_mapping` when n == 0, regular (80%: real instance "
-        "compared with the whole-path Lean model) and direct_trusted_mapping deserialization; a case is non-trivial if at "
+        "keep_undefined default / True / False, with and without `_versions_mapping` when n == 0, regular (80%) and "
+        "direct_trusted_mapping deserialization (20%; 70% of those with all-typed fields so that the trusted shortcut is "
+        "really taken), the real instance / exception compared with the whole-path Lean model in both; a case is non-trivial if at "
         "least one mapping is non-empty; distinct by sha256 of the case")
 ASSUMPTIONS = [
     "documents are JSON values (None/bool/int/str/finite float/list/dict with str keys); floats are exact ratios, no NaN/inf/-0.0",
@@ -63,10 +65,11 @@ TRUSTED_EXTRA = [
     "stripped, `str.split('.')` modelled by Lean `String.splitOn`, user functions as call tables looked up up to Python ==), "
     "harness/suites/convert.py (object builders, call recorder, deep snapshots, container-identity alias probe, instance dump)",
     "C17: extract/aliasing_c17.py (AST reading of the copy sites and of writes through caller objects in versioned_mapping.py "
-    "-> Generated/AliasingC17.lean); the heap-level model Sem/AliasC17.lean is hand-written and tied to the source only through "
-    "that table and through the harness's snapshots / alias probe (it is not run per case)",
-    "C17: the whole-path model Sem/ConvertDeser.lean reuses Sem/Deser.lean (C05/C06) for the remainder of deserialization; the "
-    "trusted path (direct_trusted_mapping) is tied by the twin-class comparison only",
+    "-> Generated/AliasingC17.lean); the heap-level model Sem/AliasC17.lean is hand-written, tied to the source through that "
+    "table and run per case through the encoding of Drive/ConvertHeap.lean (JSON values as cells, scalars as interned atoms)",
+    "C17: the whole-path model Sem/ConvertDeser.lean reuses Sem/Deser.lean (C05/C06) for the remainder of deserialization and "
+    "Sem/Trusted.lean (C10) for direct_trusted_mapping (garbage documents that model declares outside its domain, "
+    "`outside-model:*`, are tied by the twin-class comparison only)",
 ]
 
 
